@@ -158,8 +158,8 @@ Proof.
     + replace (0 <? x) with true by (symmetry; apply Z.ltb_lt; lia).
       replace (0 <? y) with true by (symmetry; apply Z.ltb_lt; lia).
       reflexivity.
-  - intros _ _. destruct (sgn_cases y) as [[_ ->]|[[_ ->]| [_ ->]]]; reflexivity.
   - intros _ _. destruct (sgn_cases x) as [[_ ->]|[[_ ->]| [_ ->]]]; reflexivity.
+  - intros _ _. destruct (sgn_cases y) as [[_ ->]|[[_ ->]| [_ ->]]]; reflexivity.
 Qed.
 
 (** the [unwrap()] calls in the last arm of [Mul] can not panic: [signum] is
@@ -354,8 +354,7 @@ Theorem i64_min_num x y : i64_min (INum x) (INum y) = INum (Z.min x y).
 Proof. unfold i64_min, Z.min. simpl. destruct (x ?= y); reflexivity. Qed.
 Theorem i64_max_num x y : i64_max (INum x) (INum y) = INum (Z.max x y).
 Proof.
-  unfold i64_max, Z.max. simpl. destruct (x ?= y) eqn:E; trivial.
-  apply Z.compare_eq in E. now subst.
+  unfold i64_max, Z.max. simpl. destruct (x ?= y); reflexivity.
 Qed.
 
 Theorem i64_min_wf a b : wf a -> wf b -> wf (i64_min a b).
@@ -363,26 +362,34 @@ Proof. unfold i64_min. destruct (i64_partial_cmp a b) as [[| |]|]; simpl; trivia
 Theorem i64_max_wf a b : wf a -> wf b -> wf (i64_max a b).
 Proof. unfold i64_max. destruct (i64_partial_cmp a b) as [[| |]|]; simpl; trivial. Qed.
 
+Lemma ext_le_num u v : ext_le (INum u) (INum v) <-> u <= v.
+Proof.
+  unfold ext_le, Z.le. simpl. destruct (u ?= v); split; intros H; try exact I;
+    try discriminate; try contradiction; exfalso; now apply H.
+Qed.
+
 (** min is a lower bound / max an upper bound w.r.t. the order (non-NaN operands) *)
 Theorem i64_min_le a b :
   a <> INaN -> b <> INaN -> ext_le (i64_min a b) a /\ ext_le (i64_min a b) b /\
   (i64_min a b = a \/ i64_min a b = b).
 Proof.
   destruct a as [| |x|], b as [| |y|]; intros Ha Hb; try congruence;
-    unfold i64_min, ext_le; simpl; try (repeat split; auto; fail).
-  destruct (x ?= y) eqn:E; simpl; rewrite ?Z.compare_refl, ?E; repeat split; auto.
-  - apply Z.compare_eq in E. subst. now rewrite Z.compare_refl.
-  - rewrite Z.compare_antisym, E. exact I.
+    try (unfold i64_min, ext_le; simpl; rewrite ?Z.compare_refl; repeat split; auto; fail).
+  rewrite i64_min_num, !ext_le_num. repeat split.
+  - apply Z.le_min_l.
+  - apply Z.le_min_r.
+  - destruct (Z.min_spec x y) as [[_ ->]|[_ ->]]; auto.
 Qed.
 Theorem i64_max_ge a b :
   a <> INaN -> b <> INaN -> ext_le a (i64_max a b) /\ ext_le b (i64_max a b) /\
   (i64_max a b = a \/ i64_max a b = b).
 Proof.
   destruct a as [| |x|], b as [| |y|]; intros Ha Hb; try congruence;
-    unfold i64_max, ext_le; simpl; try (repeat split; auto; fail).
-  destruct (x ?= y) eqn:E; simpl; rewrite ?Z.compare_refl, ?E; repeat split; auto.
-  - apply Z.compare_eq in E. subst. now rewrite Z.compare_refl.
-  - rewrite Z.compare_antisym, E. exact I.
+    try (unfold i64_max, ext_le; simpl; rewrite ?Z.compare_refl; repeat split; auto; fail).
+  rewrite i64_max_num, !ext_le_num. repeat split.
+  - apply Z.le_max_l.
+  - apply Z.le_max_r.
+  - destruct (Z.max_spec x y) as [[_ ->]|[_ ->]]; auto.
 Qed.
 
 (** ** short-cut laws of [terminal_bin] (oxidd-rules-mtbdd/src/lib.rs) *)
@@ -409,7 +416,7 @@ Proof.
   intros Ht Hx. apply i64_is_zero_spec in Ht. subst t.
   rewrite i64_sub_spec by (simpl; trivial; apply in_i64b_true; reflexivity).
   destruct x; simpl in *; trivial. apply in_i64b_true in Hx.
-  replace (z + - 0) with z by lia. now rewrite Hx.
+  rewrite ?Z.opp_0, ?Z.add_0_r. now rewrite Hx.
 Qed.
 
 (** Sub: [(Terminal(t), _) if t.is_zero() => g] claims 0 - g = g: NOT a law *)
@@ -426,7 +433,7 @@ Theorem i64_sub_zero_l t x :
 Proof.
   intros Ht Hx. apply i64_is_zero_spec in Ht. subst t.
   rewrite i64_sub_spec by (simpl; trivial; apply in_i64b_true; reflexivity).
-  destruct x; simpl; trivial. now replace (0 + - z) with (- z) by lia.
+  destruct x; simpl; trivial.
 Qed.
 (** and it coincides with [g] only for x = 0, NaN *)
 Theorem i64_sub_zero_l_fix x : wf x -> (i64_sub i64_zero x = x <-> x = INum 0 \/ x = INaN).
@@ -493,8 +500,8 @@ Proof.
   - destruct (sgn_cases x) as [[_ ->]|[[_ ->]| [_ ->]]]; reflexivity.
   - unfold checked_mul. rewrite (Z.mul_comm y x), (andb_comm (0 <? y)), (andb_comm (y <? 0)).
     reflexivity.
-  - destruct (sgn_cases y) as [[_ ->]|[[_ ->]| [_ ->]]]; reflexivity.
   - destruct (sgn_cases x) as [[_ ->]|[[_ ->]| [_ ->]]]; reflexivity.
+  - destruct (sgn_cases y) as [[_ ->]|[[_ ->]| [_ ->]]]; reflexivity.
 Qed.
 Theorem i64_min_comm a b : i64_min a b = i64_min b a.
 Proof.
